@@ -16,14 +16,18 @@ import (
 	"bytes"
 	"context"
 	"encoding/json"
+	"errors"
 	"fmt"
 	"io"
 	"math/rand"
 	"net"
 	"net/http"
+	"os"
 	"reflect"
 	"strconv"
+	"strings"
 	"sync"
+	"sync/atomic"
 	"testing"
 	"testing/synctest"
 	"time"
@@ -38,6 +42,7 @@ func TestVerifH3Exchange(t *testing.T) {
 	}
 	items := env.Items()
 	batch := env.Int("batch", 25)
+	go vfH3XWatchdog(env) // outside the bubbles: real clock
 	for start := 0; start < len(items) && !env.Hung; start += batch {
 		end := min(start+batch, len(items))
 		synctest.Test(t, func(t *testing.T) {
@@ -54,6 +59,32 @@ func TestVerifH3Exchange(t *testing.T) {
 		})
 	}
 	env.Finish(nil)
+}
+
+// Code that spins never lets the bubble's clock advance.  The watchdog runs on the real clock,
+// outside the bubbles: when no exchange has finished for a long time it reports the current one
+// as a hang, writes the result file and ends the process.
+var (
+	vfH3XProgress atomic.Int64
+	vfH3XCurrent  atomic.Int64
+)
+
+func vfH3XWatchdog(env *vfEnv) {
+	last, stuck := int64(-1), 0
+	for {
+		time.Sleep(time.Second)
+		if p := vfH3XProgress.Load(); p != last {
+			last, stuck = p, 0
+			continue
+		}
+		if stuck++; stuck < 60 {
+			continue
+		}
+		env.Hung = true
+		env.Mismatch(int(vfH3XCurrent.Load()), 0, "hang", "the exchange finishes", "no progress for 60 s of real time")
+		env.Finish(nil)
+		os.Exit(1)
+	}
 }
 
 // ---------------------------------------------------------------------------- cases
@@ -109,14 +140,19 @@ func vfH3XPattern(n int, salt byte) []byte {
 
 // ---------------------------------------------------------------------------- network faults
 
-// vfH3XNet applies a datagram fault script to everything one endpoint sends; after `limit`
-// datagrams the network is perfect (scripts end, so every exchange can finish).
+// vfH3XNet applies a datagram fault script to everything one endpoint sends.  Scripts end: after
+// `limit` datagrams the network is perfect.  drop3, dup, reorder and mix never lose two datagrams
+// in a row, so a loss is repaired by the first probe.  drop2 loses every second datagram and can
+// swallow probe after probe; QUIC then backs off exponentially and a script bounded by datagram
+// count alone would stay hostile for hours of bubble time, which no transport has to survive:
+// drop2 also ends at `until` (bubble clock, a few seconds after the endpoint was made).
 type vfH3XNet struct {
 	*testPacketConn
 	mu    sync.Mutex
 	mode  string
 	n     int
 	limit int
+	until time.Time
 	held  []byte
 	hdst  net.Addr
 }
@@ -132,7 +168,7 @@ func (c *vfH3XNet) WriteTo(p []byte, dst net.Addr) (int, error) {
 			c.held = nil
 		}
 	}
-	if c.n > c.limit || c.mode == "perfect" {
+	if c.n > c.limit || c.mode == "perfect" || (c.mode == "drop2" && !time.Now().Before(c.until)) {
 		send(p, dst)
 		flush()
 		return len(p), nil
@@ -259,9 +295,12 @@ type vfH3XSeen struct {
 	respBody []byte
 	respErr  error
 	respTrl  []string
+	connErr  string // why the client's QUIC connection ended, if it did before the client closed it
 }
 
 func vfH3XRun(t *testing.T, env *vfEnv, b int, c vfH3XCase) {
+	vfH3XCurrent.Store(int64(b))
+	defer vfH3XProgress.Add(1)
 	rnd := env.Rand(int64(b))
 	reqData := vfH3XPattern(c.Req.total(), 0x00)
 	respData := vfH3XPattern(c.Resp.total(), 0xa5)
@@ -320,8 +359,9 @@ func vfH3XRun(t *testing.T, env *vfEnv, b int, c vfH3XCase) {
 	config := &quic.Config{TLSConfig: testTLSConfig}
 	tn := &testNet{}
 	limit := 40 + rnd.Intn(200)
+	until := time.Now().Add(time.Duration(500+rnd.Intn(3000)) * time.Millisecond)
 	newEndpoint := func() *quic.Endpoint {
-		e, err := quic.NewEndpoint(&vfH3XNet{testPacketConn: tn.newPacketConn(), mode: c.Net, limit: limit}, config)
+		e, err := quic.NewEndpoint(&vfH3XNet{testPacketConn: tn.newPacketConn(), mode: c.Net, limit: limit, until: until}, config)
 		if err != nil {
 			t.Fatal(err)
 		}
@@ -347,6 +387,11 @@ func vfH3XRun(t *testing.T, env *vfEnv, b int, c vfH3XCase) {
 				return
 			}
 			defer cc.Close()
+			defer func() {
+				if err := cc.qconn.Wait(canceledCtx); err != nil && !errors.Is(err, context.Canceled) {
+					seen.connErr = err.Error()
+				}
+			}()
 			var chunks [][]byte
 			off := 0
 			for _, n := range c.Req.Chunks {
@@ -413,7 +458,19 @@ func vfH3XRun(t *testing.T, env *vfEnv, b int, c vfH3XCase) {
 		}
 		return map[string]any{"called": seen.called, "reqLen": len(seen.reqBody), "reqErr": es(seen.reqErr),
 			"reqTrl": seen.reqTrl, "rtErr": es(seen.rtErr), "status": seen.status, "respLen": len(seen.respBody),
-			"respErr": es(seen.respErr), "respTrl": seen.respTrl, "writeErr": seen.writeErr, "net": c.Net}
+			"respErr": es(seen.respErr), "respTrl": seen.respTrl, "writeErr": seen.writeErr, "net": c.Net,
+			"connErr": seen.connErr}
+	}
+	// the connection itself died (QUIC gave up): a class of its own, whatever the description was
+	lost := func(dir string) string {
+		if seen.connErr != "" {
+			why := "other"
+			if strings.Contains(seen.connErr, "idle timeout") {
+				why = "idle-timeout"
+			}
+			return dir + ":lost-connection:" + why
+		}
+		return ""
 	}
 
 	// ---- request direction: what the handler observed
@@ -426,7 +483,11 @@ func vfH3XRun(t *testing.T, env *vfEnv, b int, c vfH3XCase) {
 		return
 	}
 	if !c.Req.allows(reqOut) {
-		env.Mismatch(b, 0, fmt.Sprintf("req:outcome:%s", vfH3XClass(c.Req, reqOut, "declared")), c.Req.Allow, act())
+		what := fmt.Sprintf("req:outcome:%s", vfH3XClass(c.Req, reqOut, "declared"))
+		if l := lost("req"); l != "" && reqOut.R == "err" {
+			what = l
+		}
+		env.Mismatch(b, 0, what, c.Req.Allow, act())
 		return
 	}
 	if seen.called {
@@ -458,7 +519,11 @@ func vfH3XRun(t *testing.T, env *vfEnv, b int, c vfH3XCase) {
 		return
 	}
 	if !c.Resp.allows(respOut) {
-		env.Mismatch(b, 1, fmt.Sprintf("resp:outcome:%s", vfH3XClass(c.Resp, respOut, map[bool]string{true: "prefix", false: "declared"}[prefixTrailer])), c.Resp.Allow, act())
+		what := fmt.Sprintf("resp:outcome:%s", vfH3XClass(c.Resp, respOut, map[bool]string{true: "prefix", false: "declared"}[prefixTrailer]))
+		if l := lost("resp"); l != "" && respOut.R == "err" {
+			what = l
+		}
+		env.Mismatch(b, 1, what, c.Resp.Allow, act())
 		return
 	}
 	if seen.rtErr == nil {
